@@ -771,7 +771,7 @@ def _show(x):
 # boolean attributes: present with an empty value and present without a value are the same attribute (DESIGN C01)
 BOOLEAN_ATTRS = frozenset(('hidden', 'checked', 'selected', 'autoplay', 'controls', 'loop', 'muted', 'compact', 'novalidate',
                            'noresize', 'autofocus', 'disabled', 'formnovalidate', 'multiple', 'required', 'declare',
-                           'reversed', 'async', 'defer', 'nowrap', 'default'))
+                           'reversed', 'async', 'defer', 'nowrap', 'default', 'readonly'))
 
 
 def attrs_of(e):
